@@ -12,58 +12,47 @@ ASSUMPTIONS = ["fragments of one reply are consecutive deliveries of one socket 
 TRUSTED = ["hand-written Lean model of the reassembly code, checked against the code on every run"]
 
 
-def fragment_groups(case):
-    """[(conn, start, count)] of consecutive split datagrams with the same id"""
-    groups = []
-    for ci, ds in enumerate(case.script):
-        if ds == "X":
-            continue
-        i = 0
-        while i < len(ds):
-            d = ds[i]
-            if d is not None and d[:4] == b"\xfe\xff\xff\xff" and len(d) >= 8:
-                j = i
-                while j < len(ds) and ds[j] is not None and ds[j][:8] == d[:8]:
-                    j += 1
-                if j - i >= 2:
-                    groups.append((ci, i, j - i))
-                i = j
-            else:
-                i += 1
-    return groups
-
-
 def run(rep, tier, seed, replay=None):
     if replay is not None:
         vlib.correspond(rep, replay, oracle=netprops.crash_oracle, trivial=netprops.trivial, tag="c08")
         return
     rnd = random.Random(seed)
-    valids = [v for v in netprops.valid_cases("valve", seed + 8, 500 if tier == "quick" else 6000) if not v.notwf]
+    import importlib
+    valids = []
     cases, meta = [], {}
     base_lines = []
-    budget = 2500 if tier == "quick" else 60000
-    gi = netprops.FAMILIES["valve"]["gather"]
-    for v in valids:
-        c = v.case()
-        # a failed section must surface as the query's error (Try would turn it into an absent section,
-        # which is C11's subject): sections that are gathered are gathered with Enforce
-        c.args[gi] = c.args[gi][:2].replace("t", "e") + c.args[gi][2]
-        v.line = c.line()
-        gs = fragment_groups(c)
-        if not gs:
+    fams = []
+    for fam in netprops.FAMILIES:
+        fmod = importlib.import_module("props.families." + fam)
+        if not hasattr(fmod, "fragment_groups"):
             continue
-        base_lines.append(v.line)
-        for (ci, st, n) in gs:
-            rep.count(f"fragments:{n}")
-            variants = netcases.permutations_of_group(c, ci, st, n, rnd) + netcases.duplications_of_group(c, ci, st, n)
-            if tier == "quick" and len(variants) > 40:
-                variants = rnd.sample(variants, 40)
-            for k, (vc, what) in enumerate(variants):
-                cid = f"{v.id}g{st}x{k}"
-                cases.append(vc.line(cid))
-                meta[cid] = (v, what)
-        if len(cases) > budget:
-            break
+        fams.append(fam)
+        budget = (2500 if tier == "quick" else 60000)
+        produced = 0
+        fv = [v for v in netprops.valid_cases(fam, seed + 8, 500 if tier == "quick" else 6000) if not v.notwf]
+        for v in fv:
+            c = v.case()
+            if hasattr(fmod, "c08_prepare"):
+                c = fmod.c08_prepare(c)
+                v.line = c.line()
+            gs = fmod.fragment_groups(c)
+            if not gs:
+                continue
+            valids.append(v)
+            base_lines.append(v.line)
+            for (ci, st, n) in gs:
+                rep.count(f"fragments:{fam}:{n}")
+                variants = netcases.permutations_of_group(c, ci, st, n, rnd) + netcases.duplications_of_group(c, ci, st, n)
+                if tier == "quick" and len(variants) > 40:
+                    variants = rnd.sample(variants, 40)
+                for k, (vc, what) in enumerate(variants):
+                    cid = f"{v.id}g{st}x{k}"
+                    cases.append(vc.line(cid))
+                    meta[cid] = (v, what)
+                    produced += 1
+            if produced > budget:
+                break
+    rep.extra_cov["families"] = fams
     by_id = {v.id: v for v in valids}
 
     def oracle(case, impl, model, panic):
@@ -74,7 +63,7 @@ def run(rep, tier, seed, replay=None):
         got = vlib.result_of(impl)
         if cid in by_id:
             if got != by_id[cid].want:
-                out.append(("inorder-mismatch:valve", f"in-order arrival differs from the expected response: {got[:200]}"))
+                out.append(("inorder-mismatch:" + by_id[cid].fam, f"in-order arrival differs from the expected response: {got[:200]}"))
             return out
         if cid not in meta:
             return out
